@@ -35,7 +35,7 @@ func init() {
 func c01Specs(c *run.Ctx) (named []spec.Spec, subsets []spec.Spec) {
 	named = specsByName("strict", "bpbr", "ugc", "bpbr-spaces", "bpbr-comments", "pattern", "pattern-bare",
 		"attrs", "rawtext", "foreign", "skipmod", "cmd-email", "everything-named", "styles", "media", "iframe-attrs-only",
-		"pattern-std-names", "ugc-spaces-comments", "literal-bp", "rare-builder-forms", "options-without-elements", "literal-options-first", "unsafe-no-script", "unsafe-unskipped-no-script")
+		"pattern-std-names", "ugc-spaces-comments", "literal-bp", "rare-builder-forms", "options-without-elements", "literal-options-first", "unsafe-no-script", "unsafe-unskipped-no-script", "rawtext-comments")
 	if c.Quick() {
 		subsets = subsetSpecs(2)
 	} else {
